@@ -18,6 +18,7 @@ import (
 	"path/filepath"
 	"regexp"
 	"strings"
+	"sync/atomic"
 
 	"verif/lib/fix"
 	"verif/lib/vf"
@@ -84,6 +85,7 @@ func main() {
 		r.Floor("forged.offered-as-next-block."+c, int64(r.Pick(2, 100)))
 	}
 	os.RemoveAll(root)
+	r.Count("bursts.shifted-around-read-cut", atomic.LoadInt64(&shiftedBursts))
 	r.Finish("per plan: a fresh publisher chain of 4..12 blocks (1-2 transactions each), a peer holding all blocks or a lossy subset, 5..16 seeded GIVB messages of 1..5 blocks (ascending runs, random picks, shuffled and repeated blocks, forged siblings placed where the next block is expected) from 1..3 peers, one step in six sent by two peers at the same time, then a closing phase answering the follower's block requests in order; an evaluation is one delivery step with all its checks; distinct = distinct (head before, head after, message shape)",
 		"per-message prediction: blocks at or below the head are skipped, the rest are taken in message order, the message stops at the first block that does not extend the chain; where a message repeats a block it has just delivered, both readings of 'already held' (head when the message arrived / head by now) are admitted; for two concurrent messages both processing orders are admitted",
 		"'longest gap-free prefix it was given' is judged at the end of the closing phase, in which a peer has offered, in order and in response to the follower's requests, every block the peers hold; during the chaos phase blocks above a gap are dropped by design and only the per-message rule is judged",
